@@ -605,7 +605,9 @@ theorem lazyRecs_of_covered (env : Env F) (rs : List (Rec F × List Nat)) (hrec 
     references (aggregates are covered by `C10_scan_file_gaps` on the token grammar, but not yet through this bridge); (3) keywords with lower-case letters (the eager reader folds case, the lazy scanner
     `abort()`s — not conforming Part 21); (4) instance name `#0` and names with more than 20 significant digits; (5) bytes ≥ 256;
     (6) the source shape before `fixes/C10-7` (`commentsRaw`): there a comment containing `'` or `/*` derails the lazy scanner
-    (replayed, corpus `layout-apostrophe-in-comment`).  Byte ranges are not part of the model's `Entry` and are not compared. -/
+    (replayed, corpus `layout-apostrophe-in-comment`); (7) comments longer than 8192 bytes: the eager *model* has no `MAX_COMMENT_LENGTH`
+    (listed among its assumptions), the eager reader gives up on such a comment and skips the instance after it, the lazy scanner does not
+    (replayed, `layout:comment-above-8192`, kept as a finding).  Byte ranges are not part of the model's `Entry` and are not compared. -/
 theorem C10_index_equals_eager_partial (ops : FloatOps F) (lex : LexCfg) (cfg : RWCfg) (d : Dict) (strict : Bool)
     (hskip : cfg.skipInstanceSkipsComments = true) (hcri : lex.criSkipsComments = true) (hagg : cfg.aggrSkipsComments = true)
     (rs : List (Rec F × List Nat)) (g0 sp gE after : List Nat) (hg0 : Seps g0) (hsp : sp.all StepModel.isSpace = true) (hgE : Seps gE)
